@@ -169,4 +169,46 @@ CodecViolations(c, o) ==
   (IF K1(c, o) THEN {} ELSE {"K1 serialising a well-formed message and parsing the result did not reproduce the message"})
   \cup (IF K2(c, o) THEN {} ELSE {"K2 the parser accepted a byte string whose re-serialisation differs from it"})
   \cup (IF K3(c, o) THEN {} ELSE {"K3 the parser accepted an input of a length the wire layout excludes (it truncated or padded instead of rejecting)"})
+
+(***************************************************************************)
+(* Sealed messages (clause K4).  Four OpenVPN types are serialised from a  *)
+(* message by SIGNING (MessageAuth) or SIGNING AND ENCRYPTING it           *)
+(* (MessageCrypt, WrappedKey, MessageCrypt2): the fields a peer means -    *)
+(* session id, replay packet id, timestamp, packet id; the client key and  *)
+(* its optional meta data - are on the wire only under a key.  For these   *)
+(* "serialising then parsing reproduces the message" is: seal with a key,  *)
+(* ToBytes, FromBytes, open with the same key - the clear fields come      *)
+(* back, the message that was serialised is itself unchanged, and the      *)
+(* bytes re-serialise to themselves.                                       *)
+(*   c.clear   sid (8), rpid (4), ts (4), pid (4): big-endian bytes;       *)
+(*             key (256 bytes), mtype (1 byte iff meta is non-empty),      *)
+(*             meta (0, 4 or 32 bytes) - <<>> where the type has no such   *)
+(*             field                                                       *)
+(*   o.sealed / o.accepted / o.opened   signing+encrypting succeeded /     *)
+(*             FromBytes accepted the bytes / authentication (and          *)
+(*             decryption) with the same key succeeded                     *)
+(*   o.clear   the clear fields of the opened message                      *)
+(*   o.kept    the clear fields of the serialised message afterwards       *)
+(*   o.ser, o.reser   ToBytes of the sealed message / of the parsed one    *)
+(***************************************************************************)
+SealTypes == {"openvpn.MessageAuth", "openvpn.MessageCrypt", "openvpn.WrappedKey", "openvpn.MessageCrypt2"}
+HasPacket(T) == T # "openvpn.WrappedKey"
+HasKey(T) == T \in {"openvpn.WrappedKey", "openvpn.MessageCrypt2"}
+SealCases(T) ==
+  { [type |-> T, clear |-> [sid |-> sid, rpid |-> rpid, ts |-> ts, pid |-> pid, key |-> key, mtype |-> (IF meta = <<>> THEN <<>> ELSE mt), meta |-> meta]] :
+      sid \in (IF HasPacket(T) THEN {Pat(8, "asc"), Pat(8, "ones"), Pat(8, "lo")} ELSE {<<>>}),
+      rpid \in (IF HasPacket(T) THEN {<<0, 0, 0, 1>>, Pat(4, "asc")} ELSE {<<>>}),
+      ts \in (IF HasPacket(T) THEN {Pat(4, "asc"), Pat(4, "zero")} ELSE {<<>>}),
+      pid \in (IF HasPacket(T) THEN {Pat(4, "zero"), Pat(4, "hi")} ELSE {<<>>}),
+      key \in (IF HasKey(T) THEN {Pat(256, "asc"), Pat(256, "ones"), Pat(256, "zero")} ELSE {<<>>}),
+      mt \in (IF HasKey(T) THEN {<<0>>, <<1>>} ELSE {<<>>}),
+      meta \in (IF HasKey(T) THEN {<<>>, Pat(4, "asc"), Pat(32, "asc")} ELSE {<<>>}) }
+K4(c, o) == /\ o.panic = "" /\ o.sealed /\ o.accepted /\ o.opened
+            /\ o.clear = c.clear /\ o.kept = c.clear /\ o.reser = o.ser
+SealViolations(c, o) ==
+  IF K4(c, o) THEN {}
+  ELSE {"K4 a well-formed message that was sealed with a key, serialised, parsed and opened with the same key did not come back as it was"
+        \o (IF o.panic # "" THEN " (panic)" ELSE IF ~o.sealed THEN " (could not be sealed)" ELSE IF ~o.accepted THEN " (its bytes were rejected by the parser)"
+            ELSE IF ~o.opened THEN " (the parsed message does not authenticate / decrypt)" ELSE IF o.kept # c.clear THEN " (serialising changed the message itself)"
+            ELSE IF o.clear # c.clear THEN " (the opened message differs)" ELSE " (the parsed message re-serialises differently)")}
 =============================================================================
